@@ -423,7 +423,8 @@ pub fn total_leaves(params_h: &[u32]) -> u128 {
 /// Successor blob after signing with `counter`.
 pub fn successor(params: &Params, counter: u64, seed: &[u8]) -> Vec<u8> {
     let hs: Vec<u32> = params.iter().map(|p| p.1).collect();
-    if (counter as u128) + 1 >= total_leaves(&hs) {
+    // (a key of total height >= 64 at counter 2^64-1 has no representable successor either: wiped)
+    if (counter as u128) + 1 >= total_leaves(&hs) || counter == u64::MAX {
         wiped_blob(seed.len())
     } else {
         prv_blob(params, counter + 1, seed)
